@@ -8,13 +8,27 @@ import time
 import z3
 
 
-def to_smt2(ob):
+def _is_read_def(a):
+    return z3.is_eq(a) and z3.is_const(a.arg(0)) and a.arg(0).decl().name().startswith("rd!")
+
+
+def to_smt2(ob, order=0):
+    """order 0: purification definitions (rd!k == select ..) AFTER the arithmetic facts and the goal - z3 5.1 and
+    cvc5 leave integrality goals undecided when the definitions come first (measured; see DESIGN section 9);
+    order 1: as generated; order 2: reversed"""
     s = z3.Solver()
-    for a in ob.pc:
+    facts = list(ob.pc) + list(ob.extra.get("axioms", []))
+    goal = z3.Not(ob.goal)
+    if order == 0:
+        defs = [a for a in facts if _is_read_def(a)]
+        rest = [a for a in facts if not _is_read_def(a)]
+        seq = rest + [goal] + defs
+    elif order == 1:
+        seq = facts + [goal]
+    else:
+        seq = [goal] + facts[::-1]
+    for a in seq:
         s.add(a)
-    for a in ob.extra.get("axioms", []):
-        s.add(a)
-    s.add(z3.Not(ob.goal))
     return s.to_smt2()
 
 
@@ -76,6 +90,21 @@ def discharge(obls, timeout_ms=20000, jobs=None, fallback=True):
     ctx = mp.get_context("fork")
     with ctx.Pool(jobs) as pool:
         results = pool.map(_work, work, chunksize=1)
+    # second chance for what stayed unknown: other assertion orders (solver heuristics are order sensitive)
+    retry = [(i, ob) for i, (ob, r) in enumerate(zip(obls, results)) if r["verdict"] in ("unknown", "error") and ob.kind != "canary"]
+    if retry:
+        jobs2 = []
+        for i, ob in retry:
+            for order in (1, 2):
+                jobs2.append(("%d/%d" % (i, order), to_smt2(ob, order), timeout_ms, True))
+        with ctx.Pool(jobs) as pool:
+            res2 = pool.map(_work, jobs2, chunksize=1)
+        for (i, ob), k in zip(retry, range(0, len(res2), 2)):
+            for r2 in res2[k : k + 2]:
+                if r2["verdict"] in ("sat", "unsat"):
+                    r2["solver"] += " (reordered)"
+                    results[i] = r2
+                    break
     out = []
     for ob, job, r in zip(obls, work, results):
         if r["verdict"] in ("unknown", "error") and fallback and ob.kind != "canary":
